@@ -293,18 +293,18 @@ def binop(ctx, op, a, b, inplace=False):
     if isinstance(op, ast.Mult):
         return mk(ta * tb, nk)
     if isinstance(op, ast.Div):
-        if ctx.branch(tb == 0):
+        if not ctx.spec_mode and ctx.branch(tb == 0):
             ctx.raise_exc("ZeroDivisionError", ("division by zero",))
         ra, rb = term(a, "real"), term(b, "real")
         return mk(ra / rb, "real")
     if isinstance(op, ast.FloorDiv):
-        if ctx.branch(tb == 0):
+        if not ctx.spec_mode and ctx.branch(tb == 0):
             ctx.raise_exc("ZeroDivisionError", ("division by zero",))
         if nk == "int":
             return mk(floor_divmod(ctx, ta, tb)[0], "int")
         return mk(z3.ToReal(z3.ToInt(ta / tb)), "real")
     if isinstance(op, ast.Mod):
-        if ctx.branch(tb == 0):
+        if not ctx.spec_mode and ctx.branch(tb == 0):
             ctx.raise_exc("ZeroDivisionError", ("modulo by zero",))
         if nk == "int":
             return mk(floor_divmod(ctx, ta, tb)[1], "int")
